@@ -232,6 +232,8 @@ def instrument(path, oracles=(), inplace=None, label=None, also=(), method=None)
             _DEPTH[0] -= 1
             try:
                 _after(label, args, kwargs, result, exc, snaps, inplace, orlist)
+            except CaseTimeout:
+                raise
             except BaseException as e:  # never leak monitor failures
                 COL.oracle_errors.append(
                     {"label": label, "err": repr(e),
@@ -298,6 +300,11 @@ def _after(label, args, kwargs, result, exc, snaps, inplace, oracles):
             COL.oracle_errors.append(
                 {"label": label, "oracle": getattr(o, "__name__", "?"), "err": repr(e),
                  "tb": traceback.format_exc()[-1500:], "case": COL.case})
+
+
+class CaseTimeout(BaseException):
+    """raised by the worker's per-case alarm.  Not an Exception: the drivers' and the repository's own
+    `except Exception` clauses must not swallow it (a hung call would otherwise be recorded as one that raised)."""
 
 
 def attempt(fn, *a, **k):
